@@ -106,6 +106,33 @@ def analyse(g, roots, env_val, env_err):
             A, ea = ev(args[0])
             val = iv_atan(A)
             r = (val, up(ea + 2 * U * (val.mag() + ea) + ETA))
+        elif op in ("ASIN", "ACOS"):
+            A, ea = ev(args[0])
+            m = A.mag() + ea
+            lo_, hi_ = max(A.lo, -1.0), min(A.hi, 1.0)
+            if op == "ASIN":
+                val = IV(dn(dn(math.asin(lo_))), up(up(math.asin(hi_))))
+            else:
+                val = IV(dn(dn(math.acos(hi_))), up(up(math.acos(lo_))))
+            if m >= 1.0:
+                # the argument may touch +-1: |acos(x) - acos(y)| <= sqrt(2 |x - y|) * (pi/2)/sqrt(2) ... use the Hoelder bound
+                p = up(math.pi / 2 * math.sqrt(2 * ea)) if ea > 0 else 0.0
+            else:
+                p = up(ea / math.sqrt(1.0 - m * m))
+                p = min(p, up(math.pi / 2 * math.sqrt(2 * ea)) if ea > 0 else 0.0)
+            r = (val, up(p + 2 * U * (val.mag() + p) + ETA))
+        elif op == "ATAN2":
+            (Y, ey), (X, ex) = ev(args[0]), ev(args[1])
+            rho2 = (IV(X.mig() - ex if X.mig() > ex else 0.0) .sq() + IV(Y.mig() - ey if Y.mig() > ey else 0.0).sq()).lo
+            if rho2 <= 0:
+                r = (IV(-math.pi, math.pi), INF)
+            else:
+                val = IV(-up(math.pi), up(math.pi))
+                if X.lo - ex > 0:  # right half plane: atan(y/x), monotone in both
+                    cands = [math.atan2(y, x) for y in (Y.lo, Y.hi) for x in (X.lo, X.hi)]
+                    val = IV(dn(dn(min(cands))), up(up(max(cands))))
+                p = up((X.mag() * ey + Y.mag() * ex) / rho2)
+                r = (val, up(p + 2 * U * (val.mag() + p) + ETA))
         elif op in ("POW", "CONSTPOW"):
             (A, ea), (E, ee) = ev(args[0]), ev(args[1])
             if E.lo == E.hi and ee == 0 and float(E.lo).is_integer() and E.lo >= 0:
